@@ -197,6 +197,20 @@ CLAIMED = {
         "trusted: TLC, Deriv (bound by C12); 'random smooth fields' only via the relational laws",
         "DESIGN.md 3 C17",
     ),
+    "C18": (
+        "spec/FileStore.tla, spec/MC_FileStore.tla",
+        "TLA+ specification of what a file of each format contains in exact rationals (MetaImage header fields, NIfTI RAS voxel-to-world matrix with "
+        "dim/intent fields, NRRD space directions, linear payload position of every element, world vectors stored for a flow field) with decode laws "
+        "checked by TLC, and a store state machine (write / read / holder conversion / axes change, two holders: library and SimpleITK) whose invariant "
+        "is that the object in memory is the original; files the library writes are parsed independently and compared with the specification, every "
+        "chain TLC generates is replayed through real files with the content compared after each step",
+        "160 (grid, channels) leaves x dtypes x compress x 5 formats x 2 writers x 2 readers (all 5 dtypes in the thorough tier, 2 per leaf quick); every "
+        "chain of length 2 exhaustively, 2500 (40000 thorough) seeded chains of length 3 (4); oriented anisotropic 2-D/3-D grids incl. size-1 axes, "
+        "flips, rational rotations; flows in all four axes",
+        "trusted: TLC; SimpleITK/nibabel as installed (files SimpleITK writes are themselves checked against the specification; disagreement stops "
+        "the check as a machinery error); tolerance 2e-6 relative on geometry, exact on voxels",
+        "DESIGN.md 3 C18",
+    ),
     "C19": (
         "spec/Batch.tla, spec/MC_Batch.tla, spec/Trace_Batch.tla",
         "TLA+ state machine over programs of torch operations: each operation is given by its mathematical effect on the item "
